@@ -7,12 +7,12 @@ HERE = os.path.dirname(os.path.abspath(__file__))
 CHECKS = {
     "C02": dict(
         technique="runtime monitor: reference-encoder oracle over exhaustive/boundary-dense write-read executions of the real codec",
-        text="Every (type, tag, value) case is executed on the real codec.Buffer/Reader; bytes are compared with an independent reference encoder, the read-back value bitwise, the reader offset and a following sentinel exactly. 8/16-bit types x 256 tags are enumerated completely; wider types boundary-dense plus seeded random; every narrower reference encoding is fed to every wider reader.",
+        text="Every (type, tag, value) case is executed on the real codec.Buffer/Reader; bytes are compared with an independent reference encoder, the read-back value bitwise, the reader offset and a following sentinel exactly. 8/16-bit types x 256 tags are enumerated completely; wider types boundary-dense plus seeded random; every narrower reference encoding is fed to every wider reader. Every read goes into a destination already in use (complemented value), second reads use require=false, and strings are compared again after the input buffer they were read from has been overwritten.",
         note="Trusts the reference encoder in harness/refcodec (written from the wire-format description) and the Go runtime. Wider types are sampled, not enumerated.",
         design="DESIGN.md §4 C02"),
     "C17": dict(
         technique="runtime monitor: generating-model oracle over grammar-generated config documents, fault injection with an error-or-complete oracle, hostile bytes under recover()",
-        text="Documents are generated from the config grammar together with their model; the real parser's every getter (GetString/GetMap/GetDomain/GetDomainKey/GetDomainLine and the typed getters) is compared with the model. Nine kinds of syntax fault are injected into valid documents and the oracle accepts an error or a complete parse only. Random and mutated bytes must not panic parser or getters. Lines may be glued to tags without a line break, entries may stand at the top level, and the root's listings are compared.",
+        text="Documents are generated from the config grammar together with their model; the real parser's every getter (GetString/GetMap/GetDomain/GetDomainKey/GetDomainLine and the typed getters) is compared with the model. Nine kinds of syntax fault are injected into valid documents and the oracle accepts an error or a complete parse only. Random and mutated bytes must not panic parser or getters. Lines may be glued to tags without a line break, entries may stand at the top level, and the root's listings are compared. After the comparison a caller-side edit of every listing handed out must not change later answers; zero-padded decimals, base-prefixed integers, lines of 1 MiB and more, and non-blank white space at the edges of keys and values are part of the generated documents.",
         note="Trusts the generator's statement of the grammar (trim set ' \\n\\t', first '=' splits, '#' comments, later duplicates win). A key and a sub-domain of one name, keys containing '/', '<', '>' and XML entities/CDATA/']]>' are outside the judged grammar.",
         design="DESIGN.md §4 C17"),
     "C18": dict(
@@ -22,7 +22,7 @@ CHECKS = {
         design="DESIGN.md §4 C18"),
     "C19": dict(
         technique="runtime monitor: logical-clock stamps and gauge on gate-controlled jobs of the real pool, race detector (-race) on gpool state",
-        text="Jobs on the real gpool.Pool stamp start/end on a logical clock and keep a running gauge; oracles: per-job execution count, gauge <= workers at every start, workers+1+queue gated submissions complete without a gate opening, Release returns for an idle pool / only after running jobs ended / nothing starts afterwards, no goroutine left after Release; 48 configurations x 4 scenarios; race reports touching gpool are violations. The transport burst also judges the number of handlers waiting at the gate against MaxInvoke.",
+        text="Jobs on the real gpool.Pool stamp start/end on a logical clock and keep a running gauge; oracles: per-job execution count, gauge <= workers at every start, workers+1+queue gated submissions complete without a gate opening, Release returns for an idle pool / only after running jobs ended / nothing starts afterwards, no goroutine left after Release; 48 configurations x 4 scenarios; race reports touching gpool are violations. The transport burst also judges the number of handlers waiting at the gate against MaxInvoke. Queue capacities beyond 65536 are part of the capacity scenario.",
         note="Only the interleavings the scheduler and the gates produced. 'Stops all workers' is observed through runtime.NumGoroutine at quiescence. Blocking steps are bounded by a 30 s watchdog.",
         design="DESIGN.md §4 C19"),
     "C20": dict(
@@ -32,12 +32,12 @@ CHECKS = {
         design="DESIGN.md §4 C20"),
     "C13": dict(
         technique="runtime monitor: reference member-list model over sequential histories, exact rotation/weighted-cycle counting, porcupine linearizability check of recorded concurrent histories, race detector on selector state, child processes with write-ahead case log",
-        text="Every selector (roundrobin, random, modhash, consistent hash Ketama/default; weighted and not) runs seeded Refresh/Add/Remove/Select histories against an ordered-member model (non-member, wrong error, panic = violation); round-robin rotation and the weighted-cycle formula are counted exactly over full cycles, also with 4..16 concurrent selecting goroutines; concurrent histories with updaters are recorded at the call boundary and checked with porcupine against the membership model; race reports with an accessing frame in tars/selector are violations; a crash or CPU-burning hang of the child is attributed to the last announced case.",
+        text="Every selector (roundrobin, random, modhash, consistent hash Ketama/default; weighted and not) runs seeded Refresh/Add/Remove/Select histories against an ordered-member model (non-member, wrong error, panic = violation); round-robin rotation and the weighted-cycle formula are counted exactly over full cycles, also with 4..16 concurrent selecting goroutines; concurrent histories with updaters are recorded at the call boundary and checked with porcupine against the membership model; race reports with an accessing frame in tars/selector are violations; a crash or CPU-burning hang of the child is attributed to the last announced case. Sequential histories also run over host pools containing hosts that share a Ketama ring point.",
         note="Weighted-cycle formula judged for all-positive static weights only. Members are removed by their stored endpoint value (as the endpoint manager does). Weights for weighted consistent hashing are capped at 2000 (ring size is linear in the weight by design). Manager-level selection is covered under C14/C15.",
         design="DESIGN.md §4 C13"),
     "C14": dict(
         technique="runtime monitor: cross-instance agreement over different histories, independent reference ring / list-slot oracle, before/after disruption comparison on real selector instances",
-        text="Target endpoint sets are reached through 3..6 different Refresh/Add/Remove histories on separate real selector instances; all instances must agree on every probed code (every ring point and its +-1 neighbours, 0, 2^32-1, random) and with an independently computed Ketama/default ring where that is unambiguous; removing/adding an endpoint may move only its own codes; mod-hash must map h to slot h mod N of the installed list and, weighted, to a cycle with the formula's counts and period identical across histories. Sets around hosts with colliding virtual points (birthday search in a fixed 3000-host universe) are probed and reported per colliding pair. Manager level: real proxies fed by a fake registrar reach an active set through refreshes that change the set or the weight mode or through a status check that removes a failing endpoint; a client started on the final set must route every code identically (consistent hash) and to slot h mod N of the reported active list (mod hash).",
+        text="Target endpoint sets are reached through 3..6 different Refresh/Add/Remove histories on separate real selector instances; all instances must agree on every probed code (every ring point and its +-1 neighbours, 0, 2^32-1, random) and with an independently computed Ketama/default ring where that is unambiguous; removing/adding an endpoint may move only its own codes; mod-hash must map h to slot h mod N of the installed list and, weighted, to a cycle with the formula's counts and period identical across histories. Sets around hosts with colliding virtual points (birthday search in a fixed 3000-host universe) are probed and reported per colliding pair. Manager level: real proxies fed by a fake registrar reach an active set through refreshes that change the set or the weight mode or through a status check that removes a failing endpoint; a client started on the final set must route every code identically (consistent hash) and to slot h mod N of the reported active list (mod hash). Histories include refreshes of the same hosts with other weights or ports first; call contexts derived from one base context must each be routed by their own hash code.",
         note="The 2^32 code space is sampled at the points where the mapping can change. An end-to-end phase sends real calls with a hash code in the context to one scripted server per endpoint and compares the receiving server with the prediction. 12 colliding host pairs are recorded as open known findings.",
         design="DESIGN.md §4 C14"),
     "C03": dict(
@@ -47,32 +47,32 @@ CHECKS = {
         design="DESIGN.md §4 C03"),
     "C04": dict(
         technique="runtime monitor: differential decoding (with vs. without spliced unknown fields) of reference encodings by the real generated decoders, reader-offset/sentinel probe, default/reuse/required oracles",
-        text="Reference encodings of values of every struct type are re-encoded with well-formed unknown fields (25 kinds: every wire type, nesting 6, mixed-width lists, head-like simple-list content, extended tags) at every position tag order allows incl. nested structs, list elements and map values; the generated decoder must succeed with the identical value and ReadBlock must end exactly behind the StructEnd; dropped optional members must decode to the IDL default in fresh and reused targets; each dropped required member must be an error; EvoOld/EvoNew are decoded across versions.",
+        text="Reference encodings of values of every struct type are re-encoded with well-formed unknown fields (25 kinds: every wire type, nesting 6, mixed-width lists, head-like simple-list content, extended tags) at every position tag order allows incl. nested structs, list elements and map values; the generated decoder must succeed with the identical value and ReadBlock must end exactly behind the StructEnd; dropped optional members must decode to the IDL default in fresh and reused targets; each dropped required member must be an error; EvoOld/EvoNew are decoded across versions. Optional members are also left off the wire at every nesting level at once (nested structs, struct elements of vectors, struct values of maps). JSON-version requests with omitted members of struct parameters go through the generated dispatcher: members present plus IDL defaults must reach the implementation.",
         note="Encodings come from the reference encoder. Quick tier samples 4 extra kinds per insertion point, thorough all 25.",
         design="DESIGN.md §4 C04"),
     "C06": dict(
         technique="runtime monitor: strict reference parser as oracle over exhaustively enumerated damages (prefixes, length inflations, inadmissible wire types) of reference encodings, real decoders in child processes with write-ahead case log",
-        text="From reference encodings of values of every generated struct type: every proper prefix, every embedded length inflated, every member / nested member / first element / first map value replaced by each inadmissible wire type; the real generated decoder may fail, or succeed only with exactly the value of the complete fields as determined by the independent strict parser (missing members optional and at default); for type substitutions only failure is accepted. TUP attribute sets and single primitive fields likewise. Children carry an address-space limit and a write-ahead log so that one fatal input does not end the monitor.",
+        text="From reference encodings of values of every generated struct type: every proper prefix, every embedded length inflated, every member / nested member / first element / first map value replaced by each inadmissible wire type; the real generated decoder may fail, or succeed only with exactly the value of the complete fields as determined by the independent strict parser (missing members optional and at default); for type substitutions only failure is accepted. TUP attribute sets and single primitive fields likewise. Children carry an address-space limit and a write-ahead log so that one fatal input does not end the monitor. The result buffer of a response, cut at every prefix and with every embedded length inflated, goes through the generated proxy: the call must end with an error.",
         note="Damage kinds are enumerated exhaustively per encoding; encodings are sampled (4 values per type quick, 40 thorough). Panics / over-allocation caused by damaged input are counted here and judged under C05.",
         design="DESIGN.md §4 C06"),
     "C05": dict(
         technique="runtime monitor: process-level crash/allocation/CPU watchers over hostile inputs in child processes (address-space limit, write-ahead case log), recover()-based panic capture inside the child",
-        text="Structure-aware hostile inputs (every embedded length set to -1/-2^31/2^31-1/remaining+1/2^24, every head's wire type swapped, truncations, list counts beyond fixed arrays, nesting bombs of StructBegin/LIST/MAP/mixed up to the 10 MiB maximum packet, random bytes, hostile TUP sets, 0..4-byte frames) are fed to ReadFrom/ReadBlock of every generated struct, UniAttribute.Decode, ResponseUnpack, Protocol.Invoke and InvokeTimeout. A recovered panic, allocation beyond 4096*len+1MiB, CPU beyond 5s/MiB+5s, or the death/hang of the child (attributed to the input logged ahead) is a violation.",
+        text="Structure-aware hostile inputs (every embedded length set to -1/-2^31/2^31-1/remaining+1/2^24, every head's wire type swapped, truncations, list counts beyond fixed arrays, nesting bombs of StructBegin/LIST/MAP/mixed up to the 10 MiB maximum packet, random bytes, hostile TUP sets, 0..4-byte frames) are fed to ReadFrom/ReadBlock of every generated struct, UniAttribute.Decode, ResponseUnpack, Protocol.Invoke and InvokeTimeout. A recovered panic, allocation beyond 4096*len+1MiB, CPU beyond 5s/MiB+5s, or the death/hang of the child (attributed to the input logged ahead) is a violation. Unknown (skipped) fields announce hostile lengths, including negative ones that would move the reader back onto the field's own head; a decode that does not return is decided on CPU time per case inside the child. Hostile argument buffers go through the generated dispatcher (TARS, TUP and JSON versions) under the real Protocol.Invoke and hostile result buffers through the generated proxy.",
         note="Not a coverage-guided fuzzer; reach comes from mutating encodings of every schema. A clean run is 'no crash on K inputs', not memory safety. The live client receive goroutine (AdapterProxy.Recv) is exercised by the RPC checks, not here.",
         design="DESIGN.md §4 C05"),
     "C07": dict(
         technique="runtime monitor: recording protocol objects on the real server/client receive loops, scripted peer with explicit stream partitions, sequence-equality oracle",
-        text="Recording ServerProtocol/ClientProtocol objects sit on the real transport.TarsServer and transport.TarsClient loops and record the framing layer's output in order plus every buffer length shown (the read partitions that really occurred); a scripted peer sends packet sequences (1..200 packets, sizes around every boundary incl. max-1 and max) split as single bytes, inside the 4-byte prefix, at packet boundaries +-1, coalesced, randomly, with different pacing, for max-length settings 64/4096/1MiB/10MiB and pool 0/1. Recorded sequence must equal the sent sequence byte for byte and the handler copies must be a permutation; illegal prefixes (0,1,3,max+1,2^31,2^32-1) must close that connection only after the earlier packets were delivered, with a bystander connection unaffected; on the client a broken connection must be followed by a correctly framed new one.",
+        text="Recording ServerProtocol/ClientProtocol objects sit on the real transport.TarsServer and transport.TarsClient loops and record the framing layer's output in order plus every buffer length shown (the read partitions that really occurred); a scripted peer sends packet sequences (1..200 packets, sizes around every boundary incl. max-1 and max) split as single bytes, inside the 4-byte prefix, at packet boundaries +-1, coalesced, randomly, with different pacing, for max-length settings 64/4096/1MiB/10MiB and pool 0/1. Recorded sequence must equal the sent sequence byte for byte and the handler copies must be a permutation; illegal prefixes (0,1,3,max+1,2^31,2^32-1) must close that connection only after the earlier packets were delivered, with a bystander connection unaffected; on the client a broken connection must be followed by a correctly framed new one. A complete packet one byte longer than a small maximum is written in one piece, alone and coalesced behind good packets.",
         note="Kernel coalescing decides the receiver's read boundaries; the evidence reports the observed buffer-length sequences. MaxPackageLength is process-global, so settings run one after another.",
         design="DESIGN.md §4 C07"),
     "C12": dict(
         technique="runtime monitor: gate-controlled recording ServerProtocol on the real TarsServer, raw pipelining clients, logical-clock stamps, response/notice/return-time oracles",
-        text="A real transport.TarsServer runs a monitor-owned protocol that stamps each request when the framing layer has read it, blocks every handler on a gate and marks one-way requests; raw clients pipeline requests over 1..32 connections so that running, pool-queued and framed-not-started requests exist at the Shutdown call by construction; gate scripts (at once after 0 / 1.3 s, one by one, after the close notice, some never) and clients reset while their requests execute. Every request read before the Shutdown call whose gate opened must be answered exactly once before EOF (one-way: executed, not answered), every live connection must get the reconnect notice, Shutdown must return after the drain (not at its context) and by its context otherwise; pools 0/1/4.",
+        text="A real transport.TarsServer runs a monitor-owned protocol that stamps each request when the framing layer has read it, blocks every handler on a gate and marks one-way requests; raw clients pipeline requests over 1..32 connections so that running, pool-queued and framed-not-started requests exist at the Shutdown call by construction; gate scripts (at once after 0 / 1.3 s, one by one, after the close notice, some never) and clients reset while their requests execute. Every request read before the Shutdown call whose gate opened must be answered exactly once before EOF (one-way: executed, not answered), every live connection must get the reconnect notice, Shutdown must return after the drain (not at its context) and by its context otherwise; pools 0/1/4. A second Shutdown call overlapping the first, and pools without a queue between receive loops and workers, are part of the grid; every Shutdown call that returns before its context expires must return after the requests it had to wait for have finished (logical stamps).",
         note="Timing comes from the server's own pollers (500 ms tickers, 2 s idle rule); verdicts on the return time use the context deadline and a 2 s slack. With never-opened gates only requests that started are judged.",
         design="DESIGN.md §4 C12"),
     "C08": dict(
         technique="runtime monitor: token-joined client/server event logs of real ServantProxy callers against a scripted reordering/duplicating/forging server; interval join for id uniqueness",
-        text="G callers (2/16/128) share one real proxy (also: two communicators holding proxies for the same object) and call a scripted server that reads every request id with the reference codec and answers by script: in order, reversed or randomly permuted windows, duplicated x2/x5, late (1.5x timeout), dropped, plus responses for ids nobody waits for (far away, already completed at the client, not yet issued) and id-0 pushes. The response for id X carries the token of request X, so a returned foreign token is a misdelivery; ids seen on the wire must be non-zero and distinct among calls overlapping in time (interval join on a logical clock); the id counter is preset to MaxInt32-k to cross the wrap under load. An id-draw stress (hook VerifGenRequestID = the real genRequestID) presets the counter to MaxInt32-k and lets 8 goroutines released together draw 6 ids each, 150000 rounds (2000000 thorough): ids of one round must be non-zero and distinct. A response-cut script and a deterministic cut scenario (the peer dies right behind the request-id field of a longer response, the next call goes over a new connection) decide that bytes of a dead connection are never joined with the next one's.",
+        text="G callers (2/16/128) share one real proxy (also: two communicators holding proxies for the same object) and call a scripted server that reads every request id with the reference codec and answers by script: in order, reversed or randomly permuted windows, duplicated x2/x5, late (1.5x timeout), dropped, plus responses for ids nobody waits for (far away, already completed at the client, not yet issued) and id-0 pushes. The response for id X carries the token of request X, so a returned foreign token is a misdelivery; ids seen on the wire must be non-zero and distinct among calls overlapping in time (interval join on a logical clock); the id counter is preset to MaxInt32-k to cross the wrap under load. An id-draw stress (hook VerifGenRequestID = the real genRequestID) presets the counter to MaxInt32-k and lets 8 goroutines released together draw 6 ids each, 150000 rounds (2000000 thorough): ids of one round must be non-zero and distinct. A response-cut script and a deterministic cut scenario (the peer dies right behind the request-id field of a longer response, the next call goes over a new connection) decide that bytes of a dead connection are never joined with the next one's. A proxy whose effective timeout is 0 and keep-alive pings (ids never 0, answers never delivered to the push callback) are part of the scripts.",
         note="Only the interleavings that occur; the scripts make the dangerous ones common. The id-wrap batches need the verifmsgid hook and are skipped (and reported as such in the evidence) when it does not compile against the tree.",
         design="DESIGN.md §4 C08"),
     "C09": dict(
@@ -92,7 +92,7 @@ CHECKS = {
         design="DESIGN.md §4 C15"),
     "C01": dict(
         technique="runtime monitor: token-joined event log across generated proxy, frame tap, real server stack and recording servant; reflection-driven calls with model-value equality oracles",
-        text="Per filter configuration a fresh isolated application runs the real stack (generated proxy -> ServantProxy -> transport client -> frame-parsing, re-chunking tap -> TarsServer -> tars.Protocol -> generated dispatcher -> recording servant) for an interface compiled at check time by the tree's own tars2go (12 functions over every type category, out-before-in, void, many outs). 1/4/32 callers share one proxy; each call draws function, argument values, request context/status maps, a directive for the servant (values, response context/status, tars.Error or plain error) and the proxy form (plain, WithContext, OneWay). Joined by token: executed exactly once, arguments/context/status received == sent, returned values/maps == directive, error code/message == directive, one-way never answered on the wire, pass-through filters seen once in registration order per side and properly nested. Added configurations: the servant registered through the context-less interface (separate dispatcher call emitters), and filters registered after the application's first calls (they must see the calls that follow).",
+        text="Per filter configuration a fresh isolated application runs the real stack (generated proxy -> ServantProxy -> transport client -> frame-parsing, re-chunking tap -> TarsServer -> tars.Protocol -> generated dispatcher -> recording servant) for an interface compiled at check time by the tree's own tars2go (12 functions over every type category, out-before-in, void, many outs). 1/4/32 callers share one proxy; each call draws function, argument values, request context/status maps, a directive for the servant (values, response context/status, tars.Error or plain error) and the proxy form (plain, WithContext, OneWay). Joined by token: executed exactly once, arguments/context/status received == sent, returned values/maps == directive, error code/message == directive, one-way never answered on the wire, pass-through filters seen once in registration order per side and properly nested. Added configurations: the servant registered through the context-less interface (separate dispatcher call emitters), and filters registered after the application's first calls (they must see the calls that follow). Every third call decodes its out parameters into variables the caller has used before (non-empty maps, vectors and byte vectors, set scalars, filled structs).",
         note="The IDL is one hand-written interface (plus the generated-IDL corpus of C16). UDP/TLS transports are outside the statement. Error code 0 / empty messages excluded by design.",
         design="DESIGN.md §4 C01"),
     "C10": dict(
@@ -102,8 +102,8 @@ CHECKS = {
         design="DESIGN.md §4 C10"),
     "C16": dict(
         technique="runtime monitor: child-process pipeline over generated IDL programs (tool exit/CPU-time watchdog, go build, codec-oracle engine on the compiled output), exhaustive token-boundary truncations and mutations for termination, regenerate-and-diff of the checked-in bindings",
-        text="Probe programs (one per language construct: every scalar as require/optional/default/vector/array, enums, consts, nested and cross-module structs/enums incl. two include levels, key declarations, interfaces with every parameter kind, keyword-like names) and seeded random programs are run through the working tree's tars2go under a CPU-time watchdog; every emitted package is compiled; the compiled corpus is driven by the codec engine (round trip, reference decoder, canonical form, unknown-field skipping, absent optionals on reuse); every token-boundary truncation, sampled token deletions/duplications/swaps, random bytes, token soup and degenerate megabyte inputs must terminate, truncations inside a definition with a diagnostic; the framework's own IDL is regenerated with the Makefile flags and compared with the checked-in bindings after dropping the banner and gofmt normalisation. Files defining two or three modules (with an include whose types the first and third module use) are among the probes.",
-        note="A grammar-wide sample of programs, not all programs. Call transparency of generated interfaces is decided on the hand-written interface in C01 (generated interfaces are compiled here). IDL keywords as identifiers, escaped quotes in string literals and array lengths given by constants are not part of the generated language.",
+        text="Probe programs (one per language construct: every scalar as require/optional/default/vector/array, enums, consts, nested and cross-module structs/enums incl. two include levels, key declarations, interfaces with every parameter kind, keyword-like names) and seeded random programs are run through the working tree's tars2go under a CPU-time watchdog; every emitted package is compiled; the compiled corpus is driven by the codec engine (round trip, reference decoder, canonical form, unknown-field skipping, absent optionals on reuse); every token-boundary truncation, sampled token deletions/duplications/swaps, random bytes, token soup and degenerate megabyte inputs must terminate, truncations inside a definition with a diagnostic; the framework's own IDL is regenerated with the Makefile flags and compared with the checked-in bindings after dropping the banner and gofmt normalisation. Files defining two or three modules (with an include whose types the first and third module use) are among the probes. Every generated interface of the corpus is driven in-process: generated proxy -> generated dispatcher -> recording stub (written by genreg next to the generated code) and back, in the TARS, TUP and JSON protocol versions, with values of all modes and out variables already in use; the implementation must receive what the caller passed and the caller what the implementation produced.",
+        note="A grammar-wide sample of programs, not all programs. Generated interfaces are driven in-process only (no transport, filters, contexts or errors: those are decided on the hand-written interface in C01 and C10). IDL keywords as identifiers, escaped quotes in string literals and array lengths given by constants are not part of the generated language.",
         design="DESIGN.md §4 C16"),
 }
 
